@@ -427,3 +427,21 @@ def parse_pages(data):
         out.append({"offset": pos, "len": ln, "granule": gran, "serial": serial, "flags": data[pos + 5], "nseg": nseg})
         pos += ln
     return out
+
+
+def extract_packets(data):
+    """Packets of a single-serial Ogg byte string (intact), in order."""
+    out, cur, pos = [], b"", 0
+    n = len(data)
+    while pos + 27 <= n and data[pos:pos + 4] == b"OggS":
+        nseg = data[pos + 26]
+        lac = data[pos + 27:pos + 27 + nseg]
+        body = pos + 27 + nseg
+        for l in lac:
+            cur += data[body:body + l]
+            body += l
+            if l < 255:
+                out.append(cur)
+                cur = b""
+        pos = body
+    return out
